@@ -543,7 +543,9 @@ def dscore(obs, sim, eps=1e-6):
         franks = np.zeros(nval, dtype=np.float64)
 
         # Compute ensemble rank for ensemble forecasts
-        c_hydrodiy_stat.ensrank(eps, sim, fmat, franks)
+        ierr = c_hydrodiy_stat.ensrank(eps, sim, fmat, franks)
+        if ierr > 0:
+            raise ValueError(f"c_hydrodiy_stat.ensrank returns {ierr}")
 
     # Compute obs rank
     oranks = np.argsort(np.argsort(obs))
